@@ -347,6 +347,42 @@ def _record_trace(rng, length):
     return evs
 
 
+def _scripted():
+    """fixed histories: fractional exponents that cancel exactly (3/10 - 1/10 - 1/5 = 0) leave a plain number
+    or the dimension of the other factor, whatever residue binary floating point leaves in between"""
+    def q(v, d):
+        return {'t': 'qty', 'v': [v, 1], 'd': d}
+
+    def frac(n, dn, k=0):
+        d = [[0, 1]] * 7
+        d = list(d)
+        d[k] = [n, dn]
+        return d
+    second = [[0, 1], [0, 1], [1, 1]] + [[0, 1]] * 4
+    scripts = []
+    for k in (0, 2, 4):
+        scripts.append((q(1, frac(3, 10, k)), [('div', q(1, frac(1, 10, k))), ('div', q(1, frac(1, 5, k)))]))
+        scripts.append((q(2, frac(7, 10, k)), [('div', q(1, frac(2, 5, k))), ('div', q(2, frac(3, 10, k)))]))
+    scripts.append((q(4, second), [('mul', q(1, frac(3, 10))), ('div', q(1, frac(1, 10))), ('div', q(1, frac(1, 5))),
+                                   ('add', q(1, second)), ('lt', q(6, second))]))
+    scripts.append((q(1, frac(1, 10)), [('mul', q(1, frac(1, 5))), ('div', q(1, frac(3, 10)))]))
+    out = []
+    for a, steps in scripts:
+        cur = build(a)
+        evs = [{'op': 'init', 'b': a, 'obs': observe('value', cur)}]
+        for op, b in steps:
+            kind, v, _ = call(PYOPS[op], cur, build(b))
+            o = observe(kind, v)
+            evs.append({'op': op, 'b': b, 'refl': False, 'obs': o})
+            if o['t'] not in ('qty', 'arr', 'num', 'numarr'):
+                continue
+            if o['t'] in ('num', 'numarr'):
+                break
+            cur = v
+        out.append(evs)
+    return out
+
+
 def _describe(ev):
     s = ev['op']
     if 'b' in ev:
@@ -412,6 +448,9 @@ def run(ctx):
     ctx.sample({'history': [_describe(e) for e in traces[0][:5]]})
     out = _validate(ctx, traces, 'random history')
     ctx.extra['trace_events'] = out['events']
+    fixed = _scripted()
+    out2 = _validate(ctx, fixed, 'fixed history')
+    ctx.extra['trace_events'] += out2['events']
     ctx.exhaustive = True
     ctx.assumptions += [
         'magnitudes are small rationals (dyadic floats), so float arithmetic of '
